@@ -515,7 +515,17 @@ pub fn run_replay(env: &Arc<Env>, check: Arc<dyn Check>, scn: &Scenario, path: &
         }
         return if rep.violations.is_empty() { 0 } else { 1 };
     };
-    let hit = rep.violations.iter().find(|v| v.sig == exp.violation);
+    // C07's subject is leaked entropy: which call first shows the divergence, and whether it
+    // shows in a result or only in the history, differs from execution to execution. Any twin
+    // divergence of the same planner reproduces a twin divergence.
+    let c07_class = |sig: &str| -> Option<String> {
+        let p: Vec<&str> = sig.split('/').collect();
+        if p.len() >= 3 && p[0] == "C07" && p[1].starts_with("twin_") { Some(p[2].to_string()) } else { None }
+    };
+    let hit = rep.violations.iter().find(|v| v.sig == exp.violation).or_else(|| {
+        let want = c07_class(&exp.violation)?;
+        rep.violations.iter().find(|v| c07_class(&v.sig).as_deref() == Some(want.as_str()))
+    });
     let hash = format!("{:016x}", rep.event_hash);
     match hit {
         Some(v) if hash == exp.event_hash || exp.event_hash == "entropy" => {
